@@ -43,7 +43,7 @@ From RX.Proofs Require Import CharTablesProofs RejectProofs WfParseTok WfParseCh
 From RX.Spec Require CstU CstText CstNs CstFull CstFullS5.
 From RX.Proofs Require CstSoundP CstSoundPRDoc CstSoundPRCor.
 From RX.Spec Require CstFullS4 CstFullS6.
-From RX.Proofs Require KnownFindingsMore KnownFindingsD21 CstSound6P CstSound6 CstSound6U CstSound6uCor CstSound6a CstSound6aFinal CstFullS6Main CstFullRejSem CstFullRejTrace CstFullRejDoc CstFullRejMain CstFullNsRejMain.
+From RX.Proofs Require KnownFindingsMore KnownFindingsD21 CstSound6P CstSound6 CstSound6U CstSound6uCor CstSound6a CstSound6aFinal CstSound6bFinal CstSound6rCor CstSound6c CstSound6cFinal CstSound6dFinal CstSound6eCor CstFullS6Main CstFullRejSem CstFullRejTrace CstFullRejDoc CstFullRejMain CstFullNsRejMain.
 Open Scope N_scope.
 
 (* ---- Proofs/CharTablesProofs.v ---- *)
@@ -459,8 +459,116 @@ Print Assumptions C08_parse_sound_and_complete_6u.
 
 End G16.
 
-(* ---- Proofs/CstSound6aFinal.v ---- *)
+(* ---- Proofs/CstSound6bFinal.v ---- *)
 Module G17.
+Import RX.Spec.CstFull. Import RX.Spec.CstFullS5. Import RX.Spec.CstFullS6. Import RX.Proofs.CstSoundP. Import RX.Proofs.CstSound6. Import RX.Proofs.CstSound6U. Import RX.Proofs.CstSound6a. Import RX.Proofs.CstSound6bFinal.
+Theorem C08_parse_sound_fragment_6a :
+  forall text opt d,
+  in_fragment_6a text = true -> allow_dtd opt = true -> parse text opt = Ok d ->
+  exists c : S6.doc, S6.wf_doc c = true /\ S6.render c = text.
+Proof. exact parse_sound_fragment_6a. Qed.
+Print Assumptions C08_parse_sound_fragment_6a.
+
+End G17.
+
+(* ---- Proofs/CstSound6rCor.v ---- *)
+Module G18.
+Import RX.Spec.CstFull. Import RX.Spec.CstFullS5. Import RX.Spec.CstFullS6. Import RX.Proofs.CstNsView. Import RX.Proofs.CstSoundP. Import RX.Proofs.CstSound6. Import RX.Proofs.CstSound6U. Import RX.Proofs.CstSound6a. Import RX.Proofs.CstSound6rCor.
+Theorem C08_parse_sound_fragment_6a_res :
+  forall text opt d,
+  in_fragment_6a text = true -> allow_dtd opt = true -> parse text opt = Ok d ->
+  exists c : S6.doc, S6.wf_doc c = true /\ S6.render c = text /\
+    S6.distinct_decls_le c (N.to_nat 65535) /\ 1 + N.of_nat (S6.ns_cost c) <= u32_max.
+Proof. exact parse_sound_fragment_6a_res. Qed.
+Print Assumptions C08_parse_sound_fragment_6a_res.
+
+Theorem C08_parse_sound_and_complete_6a :
+  forall text opt d,
+  in_fragment_6a text = true -> allow_dtd opt = true -> parse text opt = Ok d ->
+  exists c : S6.doc, S6.wf_doc c = true /\ S6.render c = text /\
+    (N.of_nat (length (S6.sem c)) < nodes_limit opt -> N.of_nat (length (S6.sem c)) < u32_max -> N.of_nat (S6.nattrs c) < u32_max ->
+     CstNsView.view text d = Some (S6.sem c)).
+Proof. exact parse_sound_and_complete_6a. Qed.
+Print Assumptions C08_parse_sound_and_complete_6a.
+
+Theorem C08_parse_sound_and_complete_6a_nl :
+  forall text opt d,
+  in_fragment_6a text = true -> allow_dtd opt = true -> parse text opt = Ok d ->
+  exists c : S6.doc, S6.wf_doc c = true /\ S6.render c = text /\
+    S6.distinct_decls_le c (N.to_nat 65535) /\ 1 + N.of_nat (S6.ns_cost c) <= u32_max /\
+    (N.of_nat (length (S6.sem c)) < u32_max -> N.of_nat (S6.nattrs c) < u32_max -> CstNsView.view text d = Some (S6.sem c)).
+Proof. exact parse_sound_and_complete_6a_nl. Qed.
+Print Assumptions C08_parse_sound_and_complete_6a_nl.
+
+Theorem C08_parse_view_of_witness :
+  forall text opt d (c : S6.doc),
+  parse text opt = Ok d -> S6.wf_doc c = true -> S6.render c = text ->
+  (S6.has_dtd c = true -> allow_dtd opt = true) ->
+  N.of_nat (length (S6.sem c)) < u32_max -> N.of_nat (S6.nattrs c) < u32_max ->
+  S6.distinct_decls_le c (N.to_nat 65535) -> 1 + N.of_nat (S6.ns_cost c) <= u32_max ->
+  CstNsView.view text d = Some (S6.sem c).
+Proof. exact parse_view_of_witness. Qed.
+Print Assumptions C08_parse_view_of_witness.
+
+End G18.
+
+(* ---- Proofs/CstSound6dFinal.v ---- *)
+Module G19.
+Import RX.Spec.CstFull. Import RX.Spec.CstFullS5. Import RX.Spec.CstFullS6. Import RX.Proofs.CstNsView. Import RX.Proofs.CstSoundP. Import RX.Proofs.CstSound6. Import RX.Proofs.CstSound6U. Import RX.Proofs.CstSound6dFinal.
+Theorem C08_parse_sound_fragment_6 :
+  forall text opt d,
+  in_fragment_6 text = true -> allow_dtd opt = true -> parse text opt = Ok d ->
+  exists c : S6.doc, S6.wf_doc c = true /\ S6.render c = text.
+Proof. exact parse_sound_fragment_6. Qed.
+Print Assumptions C08_parse_sound_fragment_6.
+
+End G19.
+
+(* ---- Proofs/CstSound6eCor.v ---- *)
+Module G20.
+Import RX.Spec.CstFull. Import RX.Spec.CstFullS5. Import RX.Spec.CstFullS6. Import RX.Proofs.CstNsView. Import RX.Proofs.CstSoundP. Import RX.Proofs.CstSound6. Import RX.Proofs.CstSound6U. Import RX.Proofs.CstSound6eCor.
+Theorem C08_parse_sound_fragment_6_res :
+  forall text opt d,
+  in_fragment_6 text = true -> allow_dtd opt = true -> parse text opt = Ok d ->
+  exists c : S6.doc, S6.wf_doc c = true /\ S6.render c = text /\
+    S6.distinct_decls_le c (N.to_nat 65535) /\ 1 + N.of_nat (S6.ns_cost c) <= u32_max.
+Proof. exact parse_sound_fragment_6_res. Qed.
+Print Assumptions C08_parse_sound_fragment_6_res.
+
+Theorem C08_parse_sound_and_complete_6 :
+  forall text opt d,
+  in_fragment_6 text = true -> allow_dtd opt = true -> parse text opt = Ok d ->
+  exists c : S6.doc, S6.wf_doc c = true /\ S6.render c = text /\
+    (N.of_nat (length (S6.sem c)) < nodes_limit opt -> N.of_nat (length (S6.sem c)) < u32_max -> N.of_nat (S6.nattrs c) < u32_max ->
+     CstNsView.view text d = Some (S6.sem c)).
+Proof. exact parse_sound_and_complete_6. Qed.
+Print Assumptions C08_parse_sound_and_complete_6.
+
+Theorem C08_parse_sound_and_complete_6_nl :
+  forall text opt d,
+  in_fragment_6 text = true -> allow_dtd opt = true -> parse text opt = Ok d ->
+  exists c : S6.doc, S6.wf_doc c = true /\ S6.render c = text /\
+    S6.distinct_decls_le c (N.to_nat 65535) /\ 1 + N.of_nat (S6.ns_cost c) <= u32_max /\
+    (N.of_nat (length (S6.sem c)) < u32_max -> N.of_nat (S6.nattrs c) < u32_max -> CstNsView.view text d = Some (S6.sem c)).
+Proof. exact parse_sound_and_complete_6_nl. Qed.
+Print Assumptions C08_parse_sound_and_complete_6_nl.
+
+End G20.
+
+(* ---- Proofs/CstSound6cFinal.v ---- *)
+Module G21.
+Import RX.Spec.CstFull. Import RX.Spec.CstFullS5. Import RX.Spec.CstFullS6. Import RX.Proofs.CstSoundP. Import RX.Proofs.CstSound6. Import RX.Proofs.CstSound6U. Import RX.Proofs.CstSound6a. Import RX.Proofs.CstSound6c. Import RX.Proofs.CstSound6cFinal.
+Theorem C08_parse_sound_fragment_6c :
+  forall text opt d,
+  in_fragment_6c text = true -> allow_dtd opt = true -> parse text opt = Ok d ->
+  exists c : S6.doc, S6.wf_doc c = true /\ S6.render c = text.
+Proof. exact parse_sound_fragment_6c. Qed.
+Print Assumptions C08_parse_sound_fragment_6c.
+
+End G21.
+
+(* ---- Proofs/CstSound6aFinal.v ---- *)
+Module G22.
 Import RX.Spec.CstFull. Import RX.Spec.CstFullS5. Import RX.Spec.CstFullS6. Import RX.Proofs.CstSoundP. Import RX.Proofs.CstSound6. Import RX.Proofs.CstSound6U. Import RX.Proofs.CstSound6a. Import RX.Proofs.CstSound6aFinal.
 Theorem C08_parse_sound_fragment_6a1 :
   forall text opt d,
@@ -469,10 +577,10 @@ Theorem C08_parse_sound_fragment_6a1 :
 Proof. exact parse_sound_fragment_6a1. Qed.
 Print Assumptions C08_parse_sound_fragment_6a1.
 
-End G17.
+End G22.
 
 (* ---- Proofs/KnownFindingsMore.v ---- *)
-Module G18.
+Module G23.
 Import RX.Proofs.CstNsView. Import RX.Proofs.KnownFindingsMore.
 Theorem C08_d27_refuted :
   exists x : document,
@@ -493,10 +601,10 @@ Theorem C08_d29_refuted :
 Proof. exact d29_refuted. Qed.
 Print Assumptions C08_d29_refuted.
 
-End G18.
+End G23.
 
 (* ---- Proofs/KnownFindingsD21.v ---- *)
-Module G19.
+Module G24.
 Import RX.Spec.CstNs. Import RX.Proofs.NsRejDefs. Import RX.Proofs.NsRejBuild. Import RX.Proofs.NsRejMain. Import RX.Proofs.KnownFindingsD21.
 Theorem C08_d21_refuted :
   exists (c : doc) (d : document),
@@ -523,10 +631,10 @@ Theorem C08_d21_outside_class_variant :
 Proof. exact d21_outside_class_variant. Qed.
 Print Assumptions C08_d21_outside_class_variant.
 
-End G19.
+End G24.
 
 (* ---- Proofs/NsRejMain.v ---- *)
-Module G20.
+Module G25.
 Import CstNs.
 Theorem C08_ns_violation_rejected :
   forall (c : doc) (opt : options),
@@ -539,10 +647,10 @@ Theorem C08_ns_violation_rejected :
 Proof. exact ns_violation_rejected. Qed.
 Print Assumptions C08_ns_violation_rejected.
 
-End G20.
+End G25.
 
 (* ---- Proofs/CstFullNsRejMain.v ---- *)
-Module G21.
+Module G26.
 Import RX.Spec.CstFull. Import RX.Spec.CstFullS4. Import RX.Spec.CstFullS6. Import RX.Proofs.CstNsView. Import RX.Proofs.CstFullS6Main. Import RX.Proofs.NsRejDefs. Import RX.Proofs.NsRejBuild. Import RX.Proofs.CstFullRejSem. Import RX.Proofs.CstFullRejTrace. Import RX.Proofs.CstFullRejDoc. Import RX.Proofs.CstFullRejMain. Import RX.Proofs.CstFullNsRejMain.
 Theorem C08_ns_violation_rejected_full_s6 :
   forall (d : S6.doc) (opt : options) (cT : CstFull.doc bpieces) (tr : list Detector.lop),
@@ -561,4 +669,4 @@ Theorem C08_ns_violation_rejected_full_s6 :
 Proof. exact ns_violation_rejected_full_s6. Qed.
 Print Assumptions C08_ns_violation_rejected_full_s6.
 
-End G21.
+End G26.
